@@ -4,6 +4,7 @@ import (
 	"bytes"
 	"encoding/json"
 	"fmt"
+	"strings"
 
 	"github.com/google/pprof/internal/report"
 
@@ -155,5 +156,44 @@ func checkWeb(c *vk.Ctx, shs []enum.Shape, v int, grans []Gran) {
 			cov, _ := Check(c, cs, a, g, sel, &ss, true)
 			noteCover(c, cs, cov, &ss)
 		}
+	}
+	// the granularity chosen for the session (pprof -http=: -lines prof) instead of in the URL: the page
+	// opened without g= shows the stacks at the session's granularity (one granularity per profile, in turn)
+	g := grans[int(webSeq%int64(len(grans)))]
+	sflags := append(append([]string{}, flags...), g.Name)
+	if g.NoInl {
+		sflags = append(sflags, "noinlines")
+	}
+	if g.Cols {
+		sflags = append(sflags, "showcolumns")
+	}
+	cs.Gran = g.String()
+	cs.Via = "/flamegraph, session options " + strings.Join(sflags, " ")
+	res2 := drive.Web(map[string][]byte{"p": drive.Encode(p)}, []string{"p"}, sflags...)
+	if res2.Panic != nil || res2.Err != nil || res2.Handlers == nil {
+		c.Violationf("web/start-failed", cs, "web UI did not start with %v: %v %v", sflags, res2.Err, res2.Panic)
+		return
+	}
+	for sel := 0; sel < len(a.Types); sel++ {
+		cs.SI = sel
+		c.Eval()
+		url := fmt.Sprintf("/flamegraph?si=%d", sel)
+		code, body, pan := drive.Get(res2.Handlers, "GET", url)
+		if pan != nil || code != 200 {
+			c.Violationf("web/flamegraph-status", cs, "GET %s: status %d panic %v: %.300s", url, code, pan, body)
+			continue
+		}
+		raw, ok := extractJSON(body)
+		if !ok {
+			c.Violationf("web/no-stack-data", cs, "GET %s: status 200, but the page carries no stack data: %.300s", url, body)
+			continue
+		}
+		var ss report.StackSet
+		if err := json.Unmarshal(raw, &ss); err != nil {
+			c.Count("unparsed/flamegraph", 1)
+			continue
+		}
+		c.Count("web/session-granularity-pages", 1)
+		Check(c, cs, a, g, sel, &ss, true)
 	}
 }
